@@ -552,7 +552,47 @@ func c16Sequential(r *hx.Run) {
 	c16Max = 2
 }
 
+// c16ParseEvents parses "add(C1,v0);tick(timeout,failCAS#2)" back into events (replay).
+func c16ParseEvents(s string) []c16Event {
+	var out []c16Event
+	for _, tok := range strings.Split(s, ";") {
+		switch {
+		case strings.HasPrefix(tok, "add("):
+			body := strings.TrimSuffix(strings.TrimPrefix(tok, "add("), ")")
+			parts := strings.Split(body, ",v")
+			var v uint64
+			fmt.Sscan(parts[1], &v)
+			out = append(out, c16Event{Kind: "add", Sym: parts[0], V: v})
+		case strings.HasPrefix(tok, "tick("):
+			body := strings.TrimSuffix(strings.TrimPrefix(tok, "tick("), ")")
+			e := c16Event{Kind: "tick", Force: strings.HasPrefix(body, "timeout")}
+			if i := strings.Index(body, "failCAS#"); i >= 0 {
+				fmt.Sscan(body[i+8:], &e.FailCAS)
+			}
+			if i := strings.Index(body, "failAnchor#"); i >= 0 {
+				fmt.Sscan(body[i+11:], &e.FailAnchor)
+			}
+			out = append(out, e)
+		}
+	}
+	return out
+}
+
 func c16SequentialMax(r *hx.Run, max int, depthCap int) {
+	if r.Only != "" {
+		prefix := fmt.Sprintf("seq|max%d|", max)
+		if strings.HasPrefix(r.Only, prefix) {
+			h := c16ParseEvents(strings.TrimPrefix(r.Only, prefix))
+			for i := 0; i < 2; i++ {
+				_, class, detail := c16Replay(h)
+				r.Eval()
+				if class != "" {
+					r.Violation("sequential:"+class, r.Only, fmt.Sprintf("events %v\n  %s", h, detail), nil)
+				}
+			}
+		}
+		return
+	}
 	depth, maxAdds := 5, 3
 	syms := []string{"C1", "U1", "C2"}
 	casFaults := []int{1, 2, 3}
